@@ -92,6 +92,10 @@ func scanSpecDirs(dirs []string, scanFn scanSpecFunc) error {
 			// first call from Walk is for dir itself, others we skip
 			if info.IsDir() {
 				if path == dir {
+					if err != nil {
+						// dir itself could not be read: report it
+						return scanFn(path, priority, nil, err)
+					}
 					return nil
 				}
 				return filepath.SkipDir
